@@ -427,6 +427,7 @@ def run(chk):
     estyping.check_typing(chk, prog, {k: v for k, v in C19.LOCATION.items() if k in ("biweight_location", "modal_location")}, {}, floor=2)
     d3(chk, prog)
     d3c_stated_sex(chk, prog)
+    invert_operand_kind(chk, prog)
     C05.d2(chk, prog)            # expect_flat_log2 table (shared with C05-D2)
     d4(chk, prog)
     chk.clause("CLI", "the `call --center` and `sex` command lines: estimator, --drop-low-coverage, -y and the PAR genome reach center_all / do_sex as given")
@@ -458,3 +459,156 @@ MUTANTS = [
     dict(name="twin: shift computed then negated", file=_C, old="            shift = -estimator(values)", new="            shift = 0 - estimator(values)", expect="silent"),
     dict(name="twin: shift_xx condition order", file=_C, old="        if is_xx and is_haploid_x_reference:", new="        if is_haploid_x_reference and is_xx:", expect="silent"),
 ]
+
+
+# ---------------------------------------------------------------------------------------------- numpy truth values under `~`
+def invert_operand_kind(chk, prog):
+    """guess_xx answers `~is_xy`.  On a numpy bool that is the logical negation; on a Python bool it is the integer -2 / -1, which is true
+    either way (every sample would be called female).  The model interprets `~` as negation, so the verdict compare_sex_chromosomes returns
+    must be a numpy bool on every path: a may-analysis of scalar kinds (NP numpy scalar / PY Python scalar / ? unknown) over the function
+    body, following local names and nested helper functions.  Only a definite Python-scalar path is reported."""
+    import ast as _ast
+    chk.clause("KIND", "the maleness verdict negated with `~` in guess_xx is a numpy bool on every path (a Python bool under `~` is -1 / -2: always true)")
+    chk.rule("invert-needs-numpy-bool", "every operand of `~` that is a scalar truth value obtained from compare_sex_chromosomes is a comparison with a numpy "
+             "scalar on one side on every path of the scalar-kind dataflow (constants, min / max / float / bool / round give Python scalars)")
+    fg = prog.fn(f"{CNA}.guess_xx")
+    inverts = [n for n in _ast.walk(fg.node) if isinstance(n, _ast.UnaryOp) and isinstance(n.op, _ast.Invert)]
+    src_names = set()
+    for n in _ast.walk(fg.node):
+        if isinstance(n, _ast.Assign) and isinstance(n.value, _ast.Call) and isinstance(n.value.func, _ast.Attribute) and n.value.func.attr == "compare_sex_chromosomes" \
+                and isinstance(n.targets[0], _ast.Tuple) and isinstance(n.targets[0].elts[0], _ast.Name):
+            src_names.add(n.targets[0].elts[0].id)
+    instances = [n for n in inverts if isinstance(n.operand, _ast.Name) and n.operand.id in src_names]
+    if not instances:
+        chk.ok("invert-needs-numpy-bool", "guess_xx does not negate the verdict with `~` (nothing to decide)", where=fg.loc(), cells=1)
+        return
+    fc = prog.fn(f"{CNA}.compare_sex_chromosomes")
+    funcs = {n.name: n for n in _ast.walk(fc.node) if isinstance(n, _ast.FunctionDef)}
+
+    def assigned(scope, name):
+        out = []
+        for n in _ast.walk(scope):
+            if isinstance(n, _ast.FunctionDef) and n is not scope:
+                continue
+            if isinstance(n, _ast.Assign):
+                for t in n.targets:
+                    if isinstance(t, _ast.Name) and t.id == name:
+                        out.append(n.value)
+                    elif isinstance(t, _ast.Tuple) and isinstance(n.value, _ast.Tuple) and len(t.elts) == len(n.value.elts):
+                        out += [v for e, v in zip(t.elts, n.value.elts) if isinstance(e, _ast.Name) and e.id == name]
+                    elif isinstance(t, _ast.Tuple) and any(isinstance(e, _ast.Name) and e.id == name for e in t.elts):
+                        out.append(("elt", [isinstance(e, _ast.Name) and e.id == name for e in t.elts].index(True), n.value))
+            elif isinstance(n, _ast.AugAssign) and isinstance(n.target, _ast.Name) and n.target.id == name:
+                out.append(_ast.BinOp(left=_ast.Name(id=name + "'", ctx=_ast.Load()), op=n.op, right=n.value))
+        return out
+
+    def scopes_of(scope):
+        return [scope] + ([fc.node] if scope is not fc.node else [])
+
+    def kinds(e, scope, depth=0, seen=()):
+        """set of (kind, why) with kind in NP / PY / ?"""
+        if depth > 12:
+            return {("?", "depth")}
+        if isinstance(e, tuple):                                   # element i of a tuple-returning call
+            _, i, call = e
+            if isinstance(call, _ast.Call) and isinstance(call.func, _ast.Name) and call.func.id in funcs:
+                out = set()
+                for r in [n for n in _ast.walk(funcs[call.func.id]) if isinstance(n, _ast.Return) and n.value is not None]:
+                    if isinstance(r.value, _ast.Tuple) and i < len(r.value.elts):
+                        out |= kinds(r.value.elts[i], funcs[call.func.id], depth + 1, seen)
+                    else:
+                        out.add(("?", "non-literal tuple"))
+                return out
+            return {("?", "unpacked call")}
+        if isinstance(e, _ast.Constant):
+            return {("NONE", "None")} if e.value is None else {("PY", f"the literal {e.value!r}")}
+        if isinstance(e, _ast.Name):
+            if e.id.endswith("'"):
+                e = _ast.Name(id=e.id[:-1], ctx=_ast.Load())
+            key = (id(scope), e.id)
+            if key in seen:
+                return set()
+            out = set()
+            for sc in scopes_of(scope):
+                vals = assigned(sc, e.id)
+                for v in vals:
+                    out |= kinds(v, sc, depth + 1, seen + (key,))
+                if vals:
+                    return out
+            return {("?", f"name {e.id}")}
+        if isinstance(e, _ast.BinOp):
+            l, r = kinds(e.left, scope, depth + 1, seen), kinds(e.right, scope, depth + 1, seen)
+            lk, rk = {k for k, _ in l if k != "NONE"}, {k for k, _ in r if k != "NONE"}
+            if (lk and lk <= {"NP"}) or (rk and rk <= {"NP"}):
+                return {("NP", "numpy operand")}
+            out = set()
+            for a, wa in l:
+                for b, wb in r:
+                    if a == "PY" and b == "PY":
+                        out.add(("PY", f"{wa} combined with {wb}"))
+                    elif "NONE" in (a, b):
+                        continue
+                    else:
+                        out.add(("NP", "numpy operand") if "NP" in (a, b) and "?" not in (a, b) else ("?", "mixed"))
+            return out or {("?", "binop")}
+        if isinstance(e, _ast.Compare) and len(e.ops) == 1:
+            if isinstance(e.ops[0], (_ast.Is, _ast.IsNot, _ast.In, _ast.NotIn)):
+                return {("PY", "an identity / membership test")}
+            return kinds(_ast.BinOp(left=e.left, op=_ast.Add(), right=e.comparators[0]), scope, depth + 1, seen)
+        if isinstance(e, _ast.IfExp):
+            return kinds(e.body, scope, depth + 1, seen) | kinds(e.orelse, scope, depth + 1, seen)
+        if isinstance(e, _ast.UnaryOp):
+            return {("PY", "`not`")} if isinstance(e.op, _ast.Not) else kinds(e.operand, scope, depth + 1, seen)
+        if isinstance(e, _ast.BoolOp):
+            out = set()
+            for v in e.values:
+                out |= kinds(v, scope, depth + 1, seen)
+            return out
+        if isinstance(e, _ast.Call):
+            f = e.func
+            if isinstance(f, _ast.Name):
+                if f.id in ("float", "int", "bool", "round", "len", "sum") and f.id not in funcs:
+                    return {("PY", f"{f.id}() gives a Python scalar")}
+                if f.id in ("min", "max") and len(e.args) >= 2 and not e.keywords:
+                    out = set()
+                    for a in e.args:
+                        out |= {(k, w + f" chosen by {f.id}()") if k == "PY" else (k, w) for k, w in kinds(a, scope, depth + 1, seen)}
+                    return out
+                if f.id == "abs" and e.args:
+                    return kinds(e.args[0], scope, depth + 1, seen)
+                if f.id in funcs:
+                    out = set()
+                    for r in [n for n in _ast.walk(funcs[f.id]) if isinstance(n, _ast.Return)]:
+                        out |= kinds(r.value, funcs[f.id], depth + 1, seen) if r.value is not None else {("NONE", "None")}
+                    return out
+                return {("?", f"call {f.id}")}
+            if isinstance(f, _ast.Attribute):
+                root = f
+                while isinstance(root, _ast.Attribute):
+                    root = root.value
+                if isinstance(root, _ast.Name) and root.id in ("np", "numpy", "descriptives", "stats") or f.attr in ("median", "mean", "sum", "std", "min", "max", "item") and f.attr != "item":
+                    return {("NP", "library call")}
+                if f.attr == "item":
+                    return {("PY", ".item() gives a Python scalar")}
+                return {("?", f"method {f.attr}")}
+        if isinstance(e, _ast.Subscript):
+            return {("?", "subscript")}
+        return {("?", type(e).__name__)}
+
+    n_paths = 0
+    problems = []
+    for r in [n for n in _ast.walk(fc.node) if isinstance(n, _ast.Return) and n.value is not None]:
+        owner = next((fn for fn in funcs.values() if fn is not fc.node and any(x is r for x in _ast.walk(fn))), fc.node)
+        if owner is not fc.node:
+            continue
+        if not (isinstance(r.value, _ast.Tuple) and r.value.elts):
+            continue
+        ks = kinds(r.value.elts[0], fc.node)
+        n_paths += len(ks)
+        for k, why in sorted(ks):
+            if k == "PY":
+                problems.append(f"line {r.lineno}: `{norm(r.value.elts[0])}` can be a Python bool ({why})")
+    chk.decide(not problems, "invert-needs-numpy-bool", f"guess_xx `~verdict`: the verdict of compare_sex_chromosomes is None or a comparison with a numpy scalar on every one of {n_paths} value path(s)",
+               f"{fc.qn}::verdict kind", fc.loc(), "; ".join(problems[:4]) + " -- guess_xx negates it with `~`, which on a Python bool gives -2 / -1 (true): the sample is called female whatever the evidence",
+               witness=dict(problems=problems[:6], negated_at=f"{fg.loc()} line {instances[0].lineno}"), cells=max(n_paths, 1))
+    chk.floor("value paths of the maleness verdict", n_paths, 2)
